@@ -53,21 +53,23 @@ def type_infer(t, *, forbid_internal=True):
     def union(T1, T2):
         """Join temporary type variable T1 with T2."""
         # Compute the set of temporary type variables reachable from T2.
-        if is_internal_type(T2):
-            new_reach = reach[int(T2.name[2:])]
-        else:
-            new_reach = set()
-            for T in T2.get_stvars():
-                if is_internal_type(T):
-                    new_reach.add(int(T.name[2:]))
-                    new_reach.update(reach[int(T.name[2:])])
+        new_reach = set()
+        for T in T2.get_stvars():
+            if is_internal_type(T):
+                new_reach.add(int(T.name[2:]))
+                new_reach.update(reach[int(T.name[2:])])
 
-        # Update uf and reach, check for cycles in reach.
-        for k, v in uf.items():
-            if uf[k] == T1:
-                if k in new_reach:
-                    raise TypeInferenceException("Infinite loop")
-                uf[k] = T2
+        # Update uf, check for cycles in reach.
+        merged = [k for k in uf if uf[k] == T1]
+        for k in merged:
+            if k in new_reach:
+                raise TypeInferenceException("Infinite loop")
+            uf[k] = T2
+
+        # Every variable from which the class of T1 is reachable (not only
+        # the members of the class) now also reaches new_reach.
+        for k in uf:
+            if k in merged or not reach[k].isdisjoint(merged):
                 reach[k].update(new_reach)
 
     def unify(T1, T2):
